@@ -142,7 +142,7 @@ Definition reopen {A} (s : list (uid * A)) : list (uid * A) := s.
 
 (* ---- localManager methods ------------------------------------------------------------ *)
 Inductive err := ErrUserNotFound | ErrNoUpCredit | ErrNoDownCredit | ErrUserExpired | ErrSessionsCapReached
-               | ErrBadRate (* only in the variant with the proposed F8 guard *).
+               | ErrBadRate (* server.ErrBadRate, returned by userPanel.GetUser since commit 638655d *).
 Inductive auth_res := AuthOk (up down : Z) | AuthErr (e : err).
 
 Definition credit_checks (upCredit downCredit expiry now : Z) : option err :=
@@ -312,8 +312,9 @@ Definition make_valve (rx tx : Z) : outcome unit :=
   if (0 <? rx) && (0 <? tx) then Ok tt else Panic.
 
 Inductive conn_res := CnAuthErr (e : err) | CnSessErr (e : err) | CnOk (up down : Z).
-(* [guard = false]: /repo as it is.  [guard = true]: with repo_patches/F8_nonpositive_rate.diff
-   (GetUser refuses a record whose rate is not positive). *)
+(* [guard = true]: the code as it is now - since commit 638655d GetUser refuses a record whose
+   UpRate or DownRate is not positive with ErrBadRate, before MakeValve is reached.
+   [guard = false]: GetUser before that commit (finding F8): the rates go straight to MakeValve. *)
 Definition connect (guard fx : bool) (now : Z) (s : store) (u : uid) : outcome conn_res :=
   a <- authenticate fx now s u ;;
   match a with
